@@ -20,14 +20,18 @@ func VH_C01_L2_Replay() {
 
 	// the validator set embedded in the replayed header
 	var hvs tmconsensus.ValidatorSet
-	which := verifrt.Choose("header-valset", 3)
+	which := verifrt.Choose("header-valset", 4)
 	switch which {
 	case 0:
 		hvs = e.vs // the node's set
 	case 1:
 		hvs = vkit.ValSet(vkit.Keys(7, n), vkit.Powers("foreignpower", n)) // disjoint foreign keys
-	default:
+	case 2:
 		hvs = vkit.ValSet(e.keys, vkit.Powers("otherpower", n)) // same keys, other powers
+	default:
+		// the node's validators and hashes, but the PubKeys column replaced by foreign keys
+		hvs = e.vs
+		hvs.PubKeys = vkit.Keys(7, n)
 	}
 	round := uint32(verifrt.Choose("proof-round", 2))
 	hdr := e.header("A", 1, e.vs)
@@ -68,6 +72,8 @@ func VH_C01_L2_Replay() {
 	if accepted || c.happened || c.stored {
 		verifrt.Assert(moreThanTwoThirds(validPow, total), "L2:accepted-needs-two-thirds-of-own-set")
 		// a header carrying other keys can never be accepted (equal powers with the same keys is the node's set)
+		// (a replaced PubKeys column on an otherwise equal set is ignored by the node, which counts
+		// the proof against its own keys: the two-thirds obligation above covers that variant)
 		verifrt.Assert(which != 1, "L2:accepted-header-carries-the-nodes-keys")
 	}
 	if accepted {
